@@ -998,6 +998,9 @@ class FormulaManager(object):
 
     def BVRepeat(self, formula: FNode, count: int=1) -> FNode:
         """Returns the concatenation of count copies of formula."""
+        if count < 1:
+            raise PysmtValueError("Cannot repeat a bit-vector %s times" \
+                                  % str(count))
         res = formula
         for _ in range(count-1):
             res = self.BVConcat(res, formula)
